@@ -50,10 +50,10 @@ def wire_len(labels):
 
 
 class Case:
-    __slots__ = ("fam", "pkg", "js", "aux", "res")
+    __slots__ = ("fam", "pkg", "js", "aux", "res", "px")
 
     def __init__(self, fam, pkg, js, aux=None):
-        self.fam, self.pkg, self.js, self.aux, self.res = fam, pkg, js, aux, None
+        self.fam, self.pkg, self.js, self.aux, self.res, self.px = fam, pkg, js, aux, None, None
 
 
 # ------------------------------------------------------------------ generators
@@ -566,6 +566,344 @@ def post_burst(ctx, c):
             ctx.fail("exchange/concurrent/callback", "%d queries back to back (GOMAXPROCS %d): the callback was not given each payload exactly once"
                      % (k, procs), case)
     return terms
+
+
+
+# ------------------------------------------------------------------ batches: k calls whose results are all held
+# Every encoder of the property is also run in "batch" mode: the whole list of inputs goes through the encoder first and
+# the caller keeps every output (the driver does not copy them); then every held output is decoded, every decoded value
+# is kept as well, and only then is anything looked at.  Oracle: (i) output i after all calls = output i as it was right
+# after call i, (ii) decode(output i) = input i at the end, (iii) freshness across the held encodings where the property
+# demands it.  The model's encoders are pure functions of (input, randomness), so its batch result is the map of the
+# single results (C15_seq_* theorems); the correspondence evaluates the model on the batch the implementation produced.
+MODES = {"seq": {}, "shared": {"shared": True}, "conc2p1": {"conc": 2, "procs": 1}, "conc2p4": {"conc": 2, "procs": 4}}
+DEC_ONLY = ("dec_txt", "msg_dec", "encname")
+T_DOMAIN = [b"t", b"example", b"com"]
+
+
+def item_of_js(j):
+    """a batch item (the same shape as the single case of that op) from its JSON alone"""
+    op = j["op"]
+    d = bytes.fromhex(j.get("data") or "")
+    if op in ("rt_req", "rt_resp"):
+        return Case("fmt", "msgformat", j, d)
+    if op in ("rt_txt", "dec_txt"):
+        return Case("fmt", "dns", j, d)
+    if op == "obf":
+        return Case("obf", "transports", j, (j["variant"], d, j.get("publen", 32)))
+    if op == "name_rt":
+        return Case("name_rt", "dns", j, unhexl(j["labels"]))
+    if op == "msg_rt":
+        return Case("msg_rt", "dns", j, j["msg"])
+    if op == "msg_dec":
+        return Case("msg_dec", "dns", j, d)
+    if op == "pb_rt":
+        return Case("pb_rt", "transports", j, (j["kind"], j["pb"]))
+    if op == "anypb":
+        return Case("anypb", "transports", j, (j["kind"], j["dstkind"], j["url"], tuple(j["fields"]), False))
+    if op in ("send", "encname"):
+        return Case(op, "requester", j, (d, unhexl(j["domain"])))
+    raise KeyError(op)
+
+
+def it_fmt(op, d):
+    return Case("fmt", "dns" if "txt" in op else "msgformat", {"op": op, "data": bytes(d).hex()}, d)
+
+
+def it_obf(v, t):
+    return Case("obf", "transports", {"op": "obf", "variant": v, "data": bytes(t).hex(), "publen": 32}, (v, bytes(t), 32))
+
+
+def mk_batch(items, label, mode, **top):
+    js = dict({"op": "batch", "items": [it.js for it in items]}, **MODES[mode])
+    js.update(top)
+    return Case("batch", items[0].pkg, js, {"items": items, "label": label, "mode": mode, "top": top})
+
+
+def gen_batch(ctx):
+    rng, quick = ctx.rng, ctx.tier == "quick"
+    out = []
+
+    def lens_variation(base):
+        """the fixed pattern (equal / smaller / larger than the earlier ones), then the same lengths in a random order"""
+        ls = list(base)
+        rng.shuffle(ls)
+        return [list(base), ls]
+    # length framings and TXT
+    for op, base, big in (("rt_req", [7, 7, 3, 12, 0, 255, 256, 1], None), ("rt_resp", [4, 4, 2, 300, 0, 1000, 1], [3, 65535, 65536, 5, 65535]),
+                          ("rt_txt", [3, 3, 1, 300, 0, 255, 256, 2], None)):
+        for mode in ("seq", "shared", "conc2p1"):
+            for ls in lens_variation(base)[: (1 if mode != "seq" else 2)]:
+                out.append(mk_batch([it_fmt(op, rb(rng, n)) for n in ls], "fmt/" + op, mode))
+        if big:
+            out.append(mk_batch([it_fmt(op, rb(rng, n)) for n in big], "fmt/" + op, "seq"))
+    if not quick:
+        for op in ("rt_req", "rt_resp", "rt_txt"):
+            for _ in range(30):
+                out.append(mk_batch([it_fmt(op, rb(rng, rng.choice([0, 1, 2, 5, 17, 254, 255, 256, 300]))) for _ in range(rng.randrange(2, 12))],
+                                    "fmt/" + op, rng.choice(["seq", "shared", "conc2p1", "conc2p4"])))
+    # TXT decoder alone on held inputs
+    txts = [bytes([3]) + b"abc", bytes([3]) + b"xyz", bytes([1]) + b"q", bytes([255]) + rb(rng, 255) + bytes([2]) + b"zz", bytes([0]), bytes([5]) + b"ab",
+            bytes([2]) + b"pq"]
+    out.append(mk_batch([it_fmt("dec_txt", t) for t in txts], "fmt/dec_txt", "seq"))
+    # tag obfuscators: the same tag several times (>= 5: with two random bits only, a reused ephemeral key must repeat an
+    # encoding), tags of equal, smaller and larger length than the earlier ones, the empty tag
+    for v in VARIANTS:
+        a, b_, c_, d_, e_ = rb(rng, 16), rb(rng, 16), rb(rng, 8), rb(rng, 32), rb(rng, 1)
+        tags = [a, b_, a, c_, d_, a, a, a, a, e_, b""]
+        modes = [("seq", "one"), ("seq", "each"), ("shared", "one"), ("conc2p1", "one"), ("conc2p4", "each")]
+        if v == "nil":      # the identity: its output IS the caller's input buffer, so the caller may not reuse that buffer
+            modes = [("seq", "one"), ("conc2p1", "one")]
+        for mode, keys in modes:
+            ts = list(tags)
+            if (mode, keys) != ("seq", "one"):
+                rng.shuffle(ts)
+            out.append(mk_batch([it_obf(v, t) for t in ts], "obf/" + v, mode, variant=v, keys=keys))
+        for _ in range(1 if quick else 30):
+            pool = [rb(rng, rng.choice([1, 2, 8, 16, 16, 20, 32, 100])) for _ in range(3)]
+            ts = [rng.choice(pool) for _ in range(rng.randrange(3, 10))]
+            out.append(mk_batch([it_obf(v, t) for t in ts], "obf/" + v, rng.choice([m for m, _ in modes]), variant=v, keys=rng.choice(["one", "each"])))
+    # names: one fresh builder per name, every encoding held
+    names = [[b"a", b"b", b"c"], [b"a", b"b", b"c"], [b"x"], [b"p" * 63, b"q" * 63], [b"y" * 64], [], [b"WWW", b"example", b"com"], [b"www", b"example", b"com"],
+             split_labels(rng, 255), [rlabel(rng, 5), rlabel(rng, 1)]]
+    for mode in ("seq", "conc2p1"):
+        ns = list(names)
+        if mode != "seq":
+            rng.shuffle(ns)
+        out.append(mk_batch([Case("name_rt", "dns", {"op": "name_rt", "labels": hexl(n)}, n) for n in ns], "name_rt", mode))
+    # DNS messages
+    def msgs():
+        ms = [chain_msg(rng, 3, "q"), chain_msg(rng, 11, "an")]
+        for _ in range(3):
+            m = empty_msg(rng)
+            for sec in ("q", "an", "ns", "ar"):
+                for _ in range(rng.choice([0, 1, 2, 3])):
+                    n = pname(rng)
+                    m[sec].append(mk_q(rng, n) if sec == "q" else mk_rr(rng, n))
+            ms.append(m)
+        ms.append(dict(ms[0]))      # the same message again
+        ms.append(empty_msg(rng))
+        return ms
+    for mode in ("seq", "conc2p1") + (() if quick else ("seq", "seq", "conc2p4")):
+        out.append(mk_batch([Case("msg_rt", "dns", {"op": "msg_rt", "msg": m}, m) for m in msgs()], "msg_rt", mode))
+    # protobuf: Marshal k messages, hold the byte slices; Unmarshal them, hold the messages
+    for kind in ("generic", "prefix", "dtls", "any", "mixed"):
+        for mode in ("seq",) + (("conc2p1",) if kind in ("prefix", "mixed") or not quick else ()):
+            its = []
+            for _ in range(5):
+                k = kind if kind != "mixed" else rng.choice(["generic", "prefix", "dtls", "any"])
+                v = rand_pb(rng, k)
+                its.append(Case("pb_rt", "transports", {"op": "pb_rt", "kind": k, "pb": v}, (k, v)))
+            its.append(Case("pb_rt", "transports", dict(its[0].js), its[0].aux))
+            out.append(mk_batch(its, "pb_rt", mode))
+    its = []
+    for kind, (_, _, nf) in KINDS.items():
+        if kind == "c2s":
+            continue
+        for mode_ in ("empty", "keep", "tapdance"):
+            f = [rng.choice([-1, 0, 1]) if i == 0 or kind != "prefix" else rng.choice([-1, 0, 1, rng.randrange(2, 9)]) for i in range(nf)]
+            its.append(Case("anypb", "transports", {"op": "anypb", "kind": kind, "dstkind": kind, "url": mode_, "fields": f, "nilsrc": False},
+                            (kind, kind, mode_, tuple(f), False)))
+    rng.shuffle(its)
+    out.append(mk_batch(its, "anypb", "seq"))
+    # the requester's packet -> query path on ONE DNSPacketConn (WriteTo -> queue -> sendLoop -> send), and encodeName alone
+    for dom in (T_DOMAIN, [b"r"]):
+        room = 255 - wire_len(dom)
+        edge = max(0, (room * 63 // 64) * 5 // 8)
+        plens = [10, 10, 3, 50, edge, edge + 1, 0, 1, edge - 1]
+        for label, mode in (("send", "seq"), ("send", "shared"), ("encname", "seq")):
+            its = [Case(label, "requester", {"op": label, "data": d.hex(), "domain": hexl(dom)}, (d, dom)) for d in (rb(rng, n) for n in plens)]
+            out.append(mk_batch(its, label, mode, domain=hexl(dom)))
+    return out
+
+
+def gen_seq_exchange(ctx):
+    """one requester, one responder: k exchanges in a row (errors in the middle must not disturb the later ones);
+    k responses reaching the requester's receive loop back to back"""
+    rng, quick = ctx.rng, ctx.tier == "quick"
+    out = []
+    for dom in EXCH_DOMAINS:
+        for _ in range(1 if quick else 6):
+            plan = [(8, 20), (8, 3), (40, 700), (1, 0), (90, 100), (150, 10), (5, 1500), (0, 33), (8, 20)]
+            if not quick:
+                rng.shuffle(plan)
+            its = []
+            for pl, rl in plan:
+                p_, r_ = bytes(rb(rng, pl)), bytes(rb(rng, rl))
+                its.append(Case("exchange", "responder", {"op": "exchange", "data": p_.hex(), "resp": r_.hex(), "domain": hexl(dom)}, (p_, r_, dom)))
+            out.append(Case("exchange_seq", "responder", {"op": "exchange_seq", "domain": hexl(dom), "items": [it.js for it in its]}, {"items": its, "dom": dom}))
+    for lens in ([5, 5, 0, 300, 900, 1], [rng.choice([0, 1, 2, 17, 255, 256, 600]) for _ in range(16)]):
+        ps = [bytes(rb(rng, n)) for n in lens]
+        out.append(Case("rburst", "requester", {"op": "rburst", "domain": hexl(T_DOMAIN), "items": [{"op": "rburst", "data": p_.hex()} for p_ in ps]}, ps))
+    return out
+
+
+class Px:
+    """the check context as seen by the single-case oracle of one batch item: keys get the prefix seq/, the failing case is the batch"""
+
+    def __init__(self, ctx, bc, i):
+        self._ctx, self._bc, self._i = ctx, bc, i
+
+    def __getattr__(self, name):
+        return getattr(self._ctx, name)
+
+    def _case(self, inner):
+        js = self._bc.js
+        small = len(repr(js)) < 20000
+        return {"fam": self._bc.fam, "label": self._bc.aux.get("label"), "mode": self._bc.aux.get("mode"), "item": self._i, "inner": inner,
+                "js": js if small else None}
+
+    def count(self, case_repr, nontrivial=True, kind=None):
+        self._ctx.count(("seq", self._bc.aux.get("label"), self._bc.aux.get("mode"), self._i, case_repr), nontrivial=nontrivial)
+
+    def fail(self, key, what, case):
+        n = len(self._bc.aux["items"])
+        self._ctx.fail("seq/" + key, "call %d of %d (%s; every result is kept until all calls are made and only then decoded): %s"
+                       % (self._i + 1, n, self._bc.aux.get("mode", "in a row"), what), self._case(case))
+
+    def broken(self, kind, what, case=None):
+        self._ctx.broken(kind, what, self._case(case))
+
+
+def adapt_item(it, ir):
+    """the batch driver's record of item i in the shape of the single case of that op"""
+    op = it.js["op"]
+    if op == "dec_txt":       # decoder alone: the "encoding" is the caller's own input
+        return dict(ir, ok=ir["ok2"], out=ir["out2"], ok2=False, out2="", dec=ir["ok2"], snap=None)
+    if op in ("msg_dec", "encname"):
+        return dict(ir, ok=ir["ok2"], err=ir["err2"], dec=ir["ok2"], snap=None)
+    if op == "send":          # the datagram is handed to the transport's Write (which must not keep it): nothing is held
+        return dict(ir, snap=None, dec=False)
+    return dict(ir, dec=ir.get("ok2"))
+
+
+def attach_batch(ctx, c):
+    """give every item of a batch its result (so that batch items can go through the second Go stage like single cases)"""
+    r = c.res or {}
+    items = c.aux["items"]
+    if r.get("panic") or not r.get("ok") or len(r.get("items") or []) != len(items):
+        return False
+    for i, (it, ir) in enumerate(zip(items, r["items"])):
+        it.res = adapt_item(it, ir)
+        it.px = Px(ctx, c, i)
+    return True
+
+
+def first_diff(a, b):
+    for i, (x, y) in enumerate(zip(a, b)):
+        if x != y:
+            return i
+    return min(len(a), len(b))
+
+
+def post_batch(ctx, c):
+    items, label, mode, r = c.aux["items"], c.aux["label"], c.aux["mode"], c.res
+    if items[0].res is None:
+        ctx.broken("driver", "batch driver failed (%s, %s): %s %s" % (label, mode, r.get("panic"), r.get("err")), {"fam": "batch", "label": label, "mode": mode})
+        return None
+    ctx.count(("batch", label, mode, repr(c.js)), kind="batch/%s/%s" % (label, mode))
+    n = len(items)
+    # (i) what the caller holds after the last call is what it was given by its own call; decoded values likewise
+    for i, it in enumerate(items):
+        ir, px = it.res, it.px
+        if ir.get("snap") is not None and ir.get("ok") and ir["snap"] != ir["out"]:
+            a, b = bytes.fromhex(ir["snap"]), bytes.fromhex(ir["out"])
+            later = [j for j, jt in enumerate(items) if j != i and jt.res.get("ok") and jt.res.get("snap") == ir["out"]]
+            ctx.fail("seq/%s/output-changed" % label,
+                     "call %d of %d (%s): the encoding this call returned (%d bytes, held by the caller, not copied) was changed by a later call: "
+                     "first difference at byte %d, now %d bytes%s" % (i + 1, n, mode, len(a), first_diff(a, b), len(b),
+                                                                      "; it now equals the encoding returned by call %d" % (later[0] + 1) if later else ""),
+                     px._case({"snap": short(a), "now": short(b)}))
+        if ir.get("dec") and ir.get("decstable") is False:
+            ctx.fail("seq/%s/decoded-changed" % label, "call %d of %d (%s): the decoded value this call returned (held by the caller) was changed "
+                     "by a later decoder call" % (i + 1, n, mode), px._case({}))
+    # (ii) + the model: the single-case oracle and term of every item, on what is held at the end
+    terms = []
+    for it in items:
+        if it.fam in TERMS:
+            t = TERMS[it.fam](it.px, it)
+            terms += t if isinstance(t, list) else [t] if t else []
+        elif it.fam == "encname":
+            t = post_encname(it.px, it)
+            terms += [t] if t else []
+    # (iii) freshness across the held encodings
+    if label.startswith("obf/") and label != "obf/nil":
+        v = label[4:]
+        seen, heads = {}, {}
+        for i, it in enumerate(items):
+            ir, t = it.res, it.aux[1]
+            if not ir.get("ok") or (v == "xor" and len(t) < 8):
+                continue
+            e = bytes.fromhex(ir["out"])
+            if e in seen:
+                ctx.fail("seq/obf/%s/fresh" % v, "calls %d and %d of %d (%s): two held encodings (of %s) are byte-identical"
+                         % (seen[e] + 1, i + 1, n, mode, "the same %d-byte tag" % len(t) if items[seen[e]].aux[1] == t else "two tags"), it.px._case({"encoding": short(e)}))
+            seen.setdefault(e, i)
+            if v in ("ctr", "gcm"):
+                h = e[:32]
+                if h in heads and e not in (bytes.fromhex(items[heads[h]].res["out"]),):
+                    ctx.fail("seq/obf/%s/fresh-header" % v, "calls %d and %d of %d (%s): two held encodings carry the same 32-byte header (the same "
+                             "ephemeral key and random bits)" % (heads[h] + 1, i + 1, n, mode), it.px._case({"header": h.hex()}))
+                heads.setdefault(h, i)
+    al = sorted(set(it.js["op"] + ("/" + it.js["variant"] if "variant" in it.js else "") for it in items if it.res.get("alias")))
+    if al:
+        ctx.cov.setdefault("decoded_value_shares_input_storage", [])
+        ctx.cov["decoded_value_shares_input_storage"] = sorted(set(ctx.cov["decoded_value_shares_input_storage"]) | set(al))
+    return ["CBatch [%s]" % "; ".join(terms)] if terms else None
+
+
+def post_encname(ctx, c):
+    (d, dom), r = c.aux, c.res
+    enc = b32l(d)
+    labels = labels_of(enc) + list(dom)
+    ctx.count(("encname", d, tuple(dom)))
+    got = unhexl(r.get("labels"))
+    case = {"fam": "encname", "data": d.hex(), "domain": hexl(dom)}
+    if r["ok"] != representable(labels):
+        ctx.fail("encname/representable", "encodeName %s a packet whose query name is %s" % (
+            "accepted" if r["ok"] else "rejected", "representable" if representable(labels) else "not representable"), case)
+    elif r["ok"] and got != labels:
+        ctx.fail("encname/labels", "the name encodeName returned is not base32(packet) in 63-byte labels + domain any more", case)
+    code = 0 if r["ok"] else 3 if "longer than 255" in r["err"] else 2 if "label longer" in r["err"] else 1 if "zero-length" in r["err"] else 98
+    return "CSendName %s %s %s %s" % (hexs(enc), gname(dom), gN(code), gname(got if r["ok"] else []))
+
+
+def post_exchange_seq(ctx, c):
+    items, dom, r = c.aux["items"], c.aux["dom"], c.res
+    case = {"fam": "exchange_seq", "domain": hexl(dom)}
+    if r.get("panic"):
+        ctx.fail("seq/exchange/panic", "a sequence of exchanges panicked: %s" % r["panic"], case)
+        return None
+    if not r.get("ok") or len(r.get("items") or []) != len(items):
+        ctx.broken("driver", "exchange_seq driver could not set up the sockets: %s" % r.get("err"), case)
+        return None
+    ctx.count(("exchange_seq", repr(c.js)), kind="exchange_seq")
+    c.aux["label"], c.aux["mode"] = "exchange", "one requester, one responder, in a row"
+    terms = []
+    for i, (it, ir) in enumerate(zip(items, r["items"])):
+        if not ir.get("ran"):
+            continue
+        it.res, it.px = ir, Px(ctx, c, i)
+        t = post_exchange(it.px, it)
+        if t:
+            terms.append(t)
+    return ["CBatch [%s]" % "; ".join(terms)] if terms else None
+
+
+def post_rburst(ctx, c):
+    ps, r = c.aux, c.res
+    case = {"fam": "rburst", "js": c.js}
+    if r.get("panic") or r.get("err"):
+        ctx.broken("driver", "rburst driver failed: %s %s" % (r.get("panic"), r.get("err")), case)
+        return None
+    ctx.count(("rburst", repr(c.js)), kind="rburst")
+    got = unhexl(r.get("msgs"))
+    if got != ps:
+        k = next((i for i, (a, b) in enumerate(zip(got, ps)) if a != b), min(len(got), len(ps)))
+        ctx.fail("recv/burst/misdelivered", "%d responses reached the requester's receive loop back to back; the queue then held %d packets and packet %d "
+                 "is not the payload of response %d (%s)" % (len(ps), len(got), k + 1, k + 1,
+                                                             "missing" if k >= len(got) else "%d bytes instead of %d" % (len(got[k]), len(ps[k]))), case)
+    return None
 
 
 def txt_len(n):
@@ -1227,7 +1565,7 @@ def post_msg_rt(ctx, c):
                                       g_msg(r.get("msg") if r.get("ok2") else None, g_obs_rr))
 
 
-TERMS = {"burst": post_burst, "trim_na": post_trim_na, "dot_rt": post_dot_rt, "dot_recv": post_dot_recv, "pb_rt": post_pb_rt, "pb_dec": post_pb_dec, "anypb_bytes": post_anypb_bytes, "name_string": post_name_string, "exchange": post_exchange, "query": post_query, "msg_rt": post_msg_rt, "msg_dec": post_msg_dec, "anypb": post_any, "obf": post_obf, "reveal": post_reveal, "fmt": post_fmt, "name_rt": post_name_rt, "read_name": post_read_name, "trim": post_trim,
+TERMS = {"batch": post_batch, "exchange_seq": post_exchange_seq, "rburst": post_rburst, "burst": post_burst, "trim_na": post_trim_na, "dot_rt": post_dot_rt, "dot_recv": post_dot_recv, "pb_rt": post_pb_rt, "pb_dec": post_pb_dec, "anypb_bytes": post_anypb_bytes, "name_string": post_name_string, "exchange": post_exchange, "query": post_query, "msg_rt": post_msg_rt, "msg_dec": post_msg_dec, "anypb": post_any, "obf": post_obf, "reveal": post_reveal, "fmt": post_fmt, "name_rt": post_name_rt, "read_name": post_read_name, "trim": post_trim,
          "chunks": post_chunks, "b32": post_b32}
 
 
@@ -1323,12 +1661,16 @@ def run(ctx):
     if rc != 0:
         ctx.broken("examples", "non-vacuity examples (C15/Examples.v) or the case evaluator (C15/Run.v) no longer check: " + out[-500:])
     _t("coq props+examples")
-    cases = replay_cases(ctx) + gen_fmt(ctx) + gen_names(ctx) + gen_req(ctx) + gen_obf(ctx) + gen_any(ctx) + gen_msg(ctx) + gen_query(ctx) + gen_exch(ctx) + gen_burst(ctx) + gen_pb(ctx) + gen_dot(ctx)
+    cases = replay_cases(ctx) + gen_fmt(ctx) + gen_names(ctx) + gen_req(ctx) + gen_obf(ctx) + gen_any(ctx) + gen_msg(ctx) + gen_query(ctx) + gen_exch(ctx) + gen_burst(ctx) + gen_pb(ctx) + gen_dot(ctx) + gen_batch(ctx) + gen_seq_exchange(ctx)
     if not run_go(ctx, cases):
         return
     _t("gen + go stage 1")
+    batches = [c for c in cases if c.fam == "batch"]
+    for c in batches:
+        attach_batch(ctx, c)
     # second stage: what the requester sent is parsed by the dns package and answered by the responder
     sends = [c for c in cases if c.fam == "send"]
+    sends += [it for c in batches if c.aux["label"] == "send" and c.aux["items"][0].res is not None for it in c.aux["items"]]
     stage2 = []
     for c in sends:
         if c.res["ok"] and c.res["out"]:
@@ -1337,9 +1679,21 @@ def run(ctx):
     for c in cases:
         if c.fam == "qmsg" and c.res.get("ok"):
             stage2.append(Case("query", "responder", {"op": "query", "data": c.res["out"], "domain": hexl(c.aux[1])}, c))
-    stage2 += gen_msg_dec(ctx, [bytes.fromhex(c.res["out"]) for c in cases if c.fam == "msg_rt" and c.res.get("ok") and len(c.res["out"]) < 1200])
+    wires = [bytes.fromhex(c.res["out"]) for c in cases if c.fam == "msg_rt" and c.res.get("ok") and len(c.res["out"]) < 1200]
+    stage2 += gen_msg_dec(ctx, wires)
+    # the message decoder alone on k held inputs (valid, truncated, and with a byte flipped), every decoded message kept
+    for lo in range(0, min(len(wires), 24 if ctx.tier == "quick" else 400), 8):
+        ws = []
+        for w in wires[lo:lo + 8]:
+            ws += [w, w[:ctx.rng.randrange(len(w) + 1)]]
+        b2 = mk_batch([Case("msg_dec", "dns", {"op": "msg_dec", "data": w.hex()}, w) for w in ws], "msg_dec", "seq")
+        stage2.append(b2)
+        batches.append(b2)
     if stage2 and not run_go(ctx, stage2):
         return
+    for c in stage2:
+        if c.fam == "batch":
+            attach_batch(ctx, c)
     _t("go stage 2")
     b32 = {c.aux: bytes.fromhex(c.res["out"]) for c in cases if c.fam == "b32"}
     terms, tcases = [], []
@@ -1355,25 +1709,26 @@ def run(ctx):
     qry = {id(c.aux): c for c in stage2 if c.fam == "send_query"}
     for c in sends:
         (d, dom), r = c.aux, c.res
+        cx = c.px or ctx
         if r.get("panic"):
-            ctx.fail("send/panic", "send panicked: %s" % r["panic"], {"fam": "send", "data": d.hex(), "domain": hexl(dom)})
+            cx.fail("send/panic", "send panicked: %s" % r["panic"], {"fam": "send", "data": d.hex(), "domain": hexl(dom)})
             continue
         enc = base64.b32encode(d).rstrip(b"=").lower()     # the coding, as the harness computes it (compared with Go's below)
         labels = [enc[i:i + 63] for i in range(0, len(enc), 63)] + list(dom)
-        ctx.count(("send", d, tuple(dom)), kind="send/" + ("ok" if r["ok"] else "err"))
+        cx.count(("send", d, tuple(dom)), kind="send/" + ("ok" if r["ok"] else "err"))
         if r["ok"] != representable(labels):
-            ctx.fail("send/representable", "send %s a payload whose query name is %s (wire length %d)" % (
+            cx.fail("send/representable", "send %s a payload whose query name is %s (wire length %d)" % (
                 "accepted" if r["ok"] else "rejected", "representable" if representable(labels) else "not representable",
                 wire_len(labels)), {"fam": "send", "data": d.hex(), "domain": hexl(dom)})
         qn, code = [], 0
         if r["ok"]:
             dc, qc = dec[id(c)].res, qry[id(c)].res
             if not dc["ok"] or len(dc["msg"]["q"]) != 1:
-                ctx.fail("send/unparsable", "the query written by send does not parse (%s)" % dc["err"], {"fam": "send", "data": d.hex(), "domain": hexl(dom)})
+                cx.fail("send/unparsable", "the query written by send does not parse (%s)" % dc["err"], {"fam": "send", "data": d.hex(), "domain": hexl(dom)})
                 continue
             qn = unhexl(dc["msg"]["q"][0]["name"])
             if not (qc["ok"] and qc["haspay"] and bytes.fromhex(qc["out"]) == d):
-                ctx.fail("send/roundtrip", "responder.responseFor did not recover the payload that requester.send encoded "
+                cx.fail("send/roundtrip", "responder.responseFor did not recover the payload that requester.send encoded "
                          "(flags=%#x, payload=%s)" % (qc["flags"], qc["out"][:40]), {"fam": "send", "data": d.hex(), "domain": hexl(dom)})
         else:
             code = 3 if "longer than 255" in r["err"] else 2 if "label longer" in r["err"] else 1 if "zero-length" in r["err"] else 98
@@ -1401,10 +1756,20 @@ def run(ctx):
                        "pb_dec/dtls/ok", "pb_dec/dtls/err", "pb_dec/any/err", "anypb_bytes/empty/ok", "anypb_bytes/cross-empty/ok",
                        "anypb_bytes/cross-keep/err", "anypb_bytes/other/err",
                        "burst/k2/procs1", "burst/k8/procs1", "burst/k2/procs4", "burst/k8/procs8",
+                       "batch/fmt/rt_req/seq", "batch/fmt/rt_req/shared", "batch/fmt/rt_req/conc2p1", "batch/fmt/rt_resp/seq", "batch/fmt/rt_txt/seq",
+                       "batch/fmt/rt_txt/shared", "batch/fmt/dec_txt/seq", "batch/obf/xor/seq", "batch/obf/xor/shared", "batch/obf/nil/seq",
+                       "batch/obf/ctr/seq", "batch/obf/ctr/shared", "batch/obf/ctr/conc2p1", "batch/obf/ctr/conc2p4", "batch/obf/gcm/seq",
+                       "batch/obf/gcm/shared", "batch/obf/gcm/conc2p1", "batch/obf/gcm/conc2p4", "batch/name_rt/seq", "batch/name_rt/conc2p1",
+                       "batch/msg_rt/seq", "batch/msg_rt/conc2p1", "batch/msg_dec/seq", "batch/pb_rt/seq", "batch/pb_rt/conc2p1", "batch/anypb/seq",
+                       "batch/send/seq", "batch/send/shared", "batch/encname/seq", "exchange_seq", "rburst",
                        "dot_rt/ok", "dot_rt/oversize", "dot_recv/clean", "dot_recv/error",
                        "anypb/keep/ok", "anypb/empty/ok", "anypb/tapdance/ok", "anypb/other/err", "anypb/cross-keep/err", "anypb/nil/ok"])
     _t("oracle + terms")
-    mm = ctx.coq_mismatches("all", HEADER, terms, "chk", shard=max(60, (len(terms) + 11) // 12))
+    # the batch terms (several items each) sit at the end of the list: deal the terms out to the shards round-robin
+    nsh = 14
+    order = sorted(range(len(terms)), key=lambda i: (i % nsh, i))
+    terms, tcases = [terms[i] for i in order], [tcases[i] for i in order]
+    mm = ctx.coq_mismatches("all", HEADER, terms, "chk", shard=max(60, (len(terms) + nsh - 1) // nsh))
     _t("coq cases (%d terms)" % len(terms))
     if mm:
         ctx.cov["mismatches"] += len(mm)
